@@ -72,7 +72,7 @@ class C10(Property):
                  "guarded flush-tap exposes the on-disk state at every physical write (prefix / record-boundary oracle)")
     rule = ("cases: specification x input_chunk_size in {None, 1, divisor, non-divisor, rows, rows+k} x "
             "output_chunk_size in {vrl, vrl+k, arbitrary, final-80+-2, final+-2, half, larger; int or integral float} x "
-            "prior content {none, empty, shorter, longer junk}; plus one write with the default 2^32 buffer per run; plus frames of 300 / 700 rows through each of the four data routes with input chunk sizes 7..257; "
+            "prior content {none, empty, shorter, longer junk}; plus one write with the default 2^32 buffer per run; plus frames of 300 / 700 / 1100 / 2500 rows through each of the four data routes with input chunk sizes 7..257 (and 1000, 1023 beyond 1024 rows); "
             "non-trivial = >= 3 flushes and an input remainder chunk")
     assumptions = ("crash points are the writer's own flush boundaries (what the process has handed to the OS); torn OS "
                    "writes and fsync ordering are not observable in-process",)
@@ -93,10 +93,10 @@ class C10(Property):
         # frames of hundreds of rows through every data route, with input chunk sizes around and across 2^k boundaries
         # (read-ahead / block caches of a data source are invisible with a few dozen rows)
         k = 0
-        rows_list = (300, 700) if ctx.tier == 'quick' else (257, 300, 512, 700, 1030)
+        rows_list = (300, 700, 1100, 2500) if ctx.tier == 'quick' else (257, 300, 512, 700, 1030, 1100, 2049, 2500, 4100)
         for rows in rows_list:
             for src in ('inline', 'dict', 'struct', 'hdf5'):
-                for ics in (7, 50, 100, 250, 255, 256, 257):
+                for ics in (7, 50, 100, 250, 255, 256, 257) + ((1000, 1023) if rows > 1024 else ()):
                     k += 1
                     if k % ctx.nshards != ctx.shard:
                         continue
